@@ -253,7 +253,7 @@ func quicMutate(r Rand, msg []byte, _ bool) []byte {
 	case 5: // token length / length field
 		if o := 6 + int(out[5]); o < len(out) {
 			if o2 := o + 1 + int(out[o]); o2+3 < len(out) {
-				out[o2+choose(r, 3, "quic.lenbyte")] = pick[byte](r, "quic.lenval", 0, 1, 0x3f, 0x40, 0x7f, 0xbf, 0xff)
+				out[o2+choose(r, 3, "quic.lenbyte")] = pick[byte](r, "quic.lenval", 0, 1, 0x3f, 0x40, 0x44, 0x45, 0x7f, 0xbf, 0xff) // 0x44xx, 0x45xx: lengths around the datagram size
 			}
 		}
 	case 6: // payload corrupted: authentication must fail
